@@ -305,6 +305,19 @@ int main(int argc, char** argv) {
     f7.chunk = 64;
     f7.rule = "every shape-bounded text (as OW) with a run of r in {1,2,3,5,63,64} whitespace bytes (space, LF, TAB, CR cycling) in one gap g between two tokens - every gap, including the inside of empty containers, after opening and before closing brackets, and the two ends - or in all gaps at once; x all paths of depth <= 2 (thorough production build: <= 3)";
     if (!(HAVE_ASAN && quick)) fams.push_back(f7);  // results, not memory: the quick ASan pass leaves it to the two production builds
+    // ON: the TARGET of the lookup is a number or literal in every spelling class (the scanner has its own way of
+    // finding the end of a scalar), in 6 surroundings
+    static const char* kScalars[] = {"0", "-0", "1", "-1", "12", "1.5", "-1.5", "0.25", "1e5", "1E5", "1e+5", "1E+5", "1e-5", "1E-5", "4E2", "6E-1", "0.25E+2", "12E3", "-0.0", "-0e0", "0E0", "1.0e0", "1.0E+0",
+                                     "123456789012345678", "18446744073709551615", "18446744073709551616", "-9223372036854775808", "1.7976931348623157e308", "1.7976931348623157E308", "4.9e-324", "4.9E-324", "5e-324",
+                                     "123456789012345678901234567890", "0.000000000000000000000000000001", "1e0", "1E0", "-1E-0", "2.5e+00", "2.5E+00", "true", "false", "null", "\"\"", "\"e\"", "\"E\""};
+    static const unsigned ON_NS = sizeof(kScalars) / sizeof(kScalars[0]);
+    vr::Family f8;
+    f8.name = "ON_scalar_targets";
+    f8.count = (uint64_t)ON_NS * 6 * 72;
+    f8.group = "ON";
+    f8.chunk = 64;
+    f8.rule = std::to_string(ON_NS) + " scalar spellings (integers, fractions, exponents written e / E / with + and -, signed zeros, extremes, literals) as the value the path leads to, in 6 surroundings (root; only element; element followed by others; member value last / followed by another member; nested), after 0..71 leading spaces; x all paths of depth <= 2";
+    fams.push_back(f8);
     // OL: a long container that must be SKIPPED, holding one special item at every offset: the lookups of the
     // member / element that follows it must still succeed (string-mask carries across 64-byte blocks)
     vr::Family f6;
@@ -343,6 +356,25 @@ int main(int argc, char** argv) {
         static const std::vector<ref::Step> nopre;
         static const JsonPointer nojp;
         c10_text(text, r.v, paths, jps, nopre, nojp, ctx);
+        return;
+      }
+      if (f.name[1] == 'N') {
+        unsigned lead = (unsigned)(idx % 72);
+        idx /= 72;
+        unsigned sur = (unsigned)(idx % 6);
+        const char* n = kScalars[idx / 6];
+        std::string N = n;
+        std::string t = sur == 0 ? N : sur == 1 ? "[" + N + "]" : sur == 2 ? "[" + N + ",7,[1]]" : sur == 3 ? "{\"a\":" + N + "}" : sur == 4 ? "{\"a\":" + N + ",\"b\":[" + N + "," + N + "]}" : "{\"b\":{\"a\":" + N + "},\"a\":[0," + N + "]}";
+        std::string s2 = std::string(lead, ' ') + t;
+        ref::Result r2 = ref::parse(s2);
+        if (!r2.ok) {
+          ctx.violation("generator_invalid", "generator_invalid", s2, "harness error: generated text is not valid");
+          return;
+        }
+        if (ctx.want_sample) ctx.sample(s2);
+        static const std::vector<ref::Step> nopre;
+        static const JsonPointer nojp;
+        c10_text(s2, r2.v, paths, jps, nopre, nojp, ctx);
         return;
       }
       if (f.name[1] == 'G') {
